@@ -17,8 +17,8 @@ import (
 	"sync"
 	"time"
 
-	"github.com/ipfs/go-cid"
 	dshelp "github.com/ipfs/boxo/datastore/dshelp"
+	"github.com/ipfs/go-cid"
 	ds "github.com/ipfs/go-datastore"
 	mh "github.com/multiformats/go-multihash"
 	"github.com/sourcenetwork/corelog"
@@ -573,13 +573,17 @@ func (s *sim) prepare(e *env, op Op, idx int) callFn {
 // merge is a fast-forward; smaller: the local operations after the fork are concurrent with the
 // remote one), and keeps the first two operations (usually the seed documents) when there are any.
 func mergeFork(n, idx int) int {
-	fork := idx - n%4
+	back := n % 4
+	fork := idx - back
 	lo := idx
 	if lo > 2 {
 		lo = 2
 	}
 	if fork < lo {
 		fork = lo
+	}
+	if back > 0 && fork == idx && idx > 0 {
+		fork = idx - 1 // a drawn divergence is kept even in a very short history
 	}
 	return fork
 }
